@@ -210,7 +210,8 @@ func rulesC06(w *World, o *Out) {
 		o.Analysed(w.FuncKey(ams))
 		valAddr := ams.Params[2]
 		nPk := 0
-		for _, g := range WithAnon(ams) {
+		for _, g0 := range unitFuncs(ams) {
+			g := g0
 			for _, st := range storesToField(g, "SignData", "PublicKey") {
 				if st.Parent() != g {
 					continue
